@@ -551,6 +551,63 @@ async fn reconnect(ctx: &mut Ctx, observed_first: bool, idlen: usize, case: &Val
     }
 }
 
+/// Real transport: peers accepted through a bound endpoint stay routable by identity after
+/// the endpoint is unbound (also when it was the last one) — a ROUTER that stops listening
+/// keeps serving whom it has.
+async fn rig_routable_after_unbind(transport: &str, second_bind: bool) -> Result<u64, (String, String)> {
+    use super::c18::{exchange, ConnRec};
+    use crate::rig::{self, Raw, WAIT};
+    let inc = |e: String| ("inconclusive".to_string(), e);
+    let mut sock = Sock::new("ROUTER", None);
+    let ep = sock.bind(&rig::bind_endpoint(transport)).await.map_err(inc)?;
+    let ep2 = if second_bind { Some(sock.bind(&rig::bind_endpoint("tcp4")).await.map_err(inc)?) } else { None };
+    let mut conns = Vec::new();
+    for (k, id) in [Some(&b"announced-id"[..]), None].into_iter().enumerate() {
+        let mut raw = Raw::connect(&ep).await.map_err(|e| inc(e.to_string()))?;
+        raw.handshake(if k == 0 { "DEALER" } else { "REQ" }, id).await.map_err(inc)?;
+        conns.push((raw, id.map(|i| i.to_vec())));
+    }
+    tokio::time::sleep(std::time::Duration::from_millis(30)).await;
+    // learn the assigned identity of the anonymous peer from its first message
+    let mut recs: Vec<ConnRec> = Vec::new();
+    for (mut raw, id) in conns {
+        let id = match id {
+            Some(i) => i,
+            None => {
+                raw.send_msg(&[vec![], b"hello".to_vec()]).await.map_err(inc)?;
+                let m = tokio::time::timeout(WAIT, sock.recv()).await.map_err(|_| inc("recv timed out".into()))?.map_err(inc)?;
+                m[0].clone()
+            }
+        };
+        recs.push(ConnRec { raw, id, ep: ep.clone() });
+    }
+    let mut seq = 0u32;
+    for phase in ["before", "after"] {
+        if phase == "after" {
+            sock.unbind(&ep).await.map_err(|e| (String::from("C09/rig/unbind-failed"), e))?;
+        }
+        for (k, c) in recs.iter_mut().enumerate() {
+            seq += 1;
+            if k == 1 {
+                // REQ-style peer: its requests carry a delimiter; c18::exchange sends plain frames,
+                // which a raw peer may do all the same (ROUTER takes any frames)
+            }
+            if let Err(e) = exchange(&mut sock, c, seq).await {
+                if !rig::canary_ok().await {
+                    return Err(inc(e));
+                }
+                return Err((
+                    format!("C09/rig/connected-peer-not-routable-{phase}-unbind/{transport}"),
+                    format!("ROUTER with two accepted peers (identity {} of peer {k}); {phase} unbind of the endpoint they came through{}: {e}", rc::hex(&c.id), if second_bind { " (another endpoint stays bound)" } else { " (its last one)" }),
+                ));
+            }
+        }
+    }
+    let _ = ep2;
+    let _ = tokio::time::timeout(WAIT, sock.close()).await;
+    Ok(4)
+}
+
 impl Prop for C09 {
     fn id(&self) -> &'static str {
         "C09"
@@ -561,6 +618,11 @@ impl Prop for C09 {
         for n in 1..=6usize {
             for k in 0..tier.pick(400, 40_000) {
                 v.push(json!({"kind": "run", "peers": n, "seed": mix(seed ^ (k as u64) << 4 ^ n as u64), "gone": k % 4}));
+            }
+        }
+        for transport in ["tcp4", "ipc"] {
+            for second in [false, true] {
+                v.push(json!({"kind": "rig_unbind", "transport": transport, "second": second}));
             }
         }
         for k in 0..tier.pick(300, 30_000) {
@@ -578,6 +640,17 @@ impl Prop for C09 {
     }
 
     fn run(&self, case: &Value, ctx: &mut Ctx) {
+        if s(case, "kind") == "rig_unbind" {
+            ctx.eval(hash_str(&case.to_string()), true);
+            ctx.sample("rig_unbind", || case.clone());
+            let (res, _) = crate::rig::run(2, rig_routable_after_unbind(s(case, "transport"), case["second"].as_bool().unwrap_or(false)));
+            match res {
+                Ok(n) => ctx.add("rig_exchanges_around_an_unbind", n),
+                Err((sig, msg)) if sig == "inconclusive" => ctx.inconclusive(format!("C09 rig: {msg}")),
+                Err((sig, msg)) => ctx.violation_with(&sig, msg, case.clone()),
+            }
+            return;
+        }
         if s(case, "kind") == "cancelled_send" {
             ctx.eval(hash_str(&case.to_string()), true);
             ctx.sample("cancelled_send", || case.clone());
@@ -609,6 +682,7 @@ impl Prop for C09 {
             ("peers_with_empty_identity_property", 100),
             ("sockets_with_several_empty_identity_peers", 20),
             ("sends_abandoned_while_pending", 50),
+            ("rig_exchanges_around_an_unbind", 12),
             ("sends_waiting_for_a_peer_that_is_not_reading", 30),
             ("sends_delivered_after_an_abandoned_send", 200),
             ("reconnects_before_the_end_was_observed", 4),
